@@ -211,9 +211,40 @@ func (st *State) fieldFam(si *StructInfo, i int) *Family {
 			st.sc.emit("(assert (forall ((o Int)) (! (< (%[1]s o) %[2]s) :pattern ((%[1]s o)))))", sym, st.alloc0.S)
 		case *types.Slice:
 			st.sc.emit("(assert (forall ((o Int)) (! (< (s-arr (%[1]s o)) %[2]s) :pattern ((%[1]s o)))))", sym, st.alloc0.S)
+		case *types.Interface:
+			st.ifaceClosure("((o Int))", "("+sym+" o)")
 		}
 	}
 	return f
+}
+
+// ifaceClosure: entry-heap closure for interface-typed locations: what an interface value of the
+// initial heap holds (a pointer, map, function or slice) was allocated before function entry.
+func (st *State) ifaceClosure(binders, read string) {
+	ids := make([]int, 0, len(st.u().typeByID))
+	for id := range st.u().typeByID {
+		ids = append(ids, id)
+	}
+	sort.Ints(ids)
+	var ptr []string
+	var parts []string
+	for _, id := range ids {
+		ct := st.u().typeByID[id]
+		switch ct.Underlying().(type) {
+		case *types.Pointer, *types.Map, *types.Signature:
+			ptr = append(ptr, fmt.Sprintf("(= (i-type %s) %d)", read, id))
+		case *types.Slice:
+			_, ub := st.boxFns(SSlice)
+			parts = append(parts, fmt.Sprintf("(=> (= (i-type %s) %d) (< (s-arr (%s (i-val %s))) %s))", read, id, ub, read, st.alloc0.S))
+		}
+	}
+	if len(ptr) > 0 {
+		parts = append(parts, fmt.Sprintf("(=> (or %s) (< (i-val %s) %s))", strings.Join(ptr, " "), read, st.alloc0.S))
+	}
+	if len(parts) == 0 {
+		return
+	}
+	st.sc.emit("(assert (forall %s (! (and %s) :pattern (%s))))", binders, strings.Join(parts, " "), read)
 }
 func (st *State) cellFam(s Sort) *Family {
 	name := famCell(s)
@@ -222,6 +253,9 @@ func (st *State) cellFam(s Sort) *Family {
 	if !existed && s == SSlice {
 		sym := sanitize(name) + "@0"
 		st.sc.emit("(assert (forall ((o Int)) (! (< (s-arr (%[1]s o)) %[2]s) :pattern ((%[1]s o)))))", sym, st.alloc0.S)
+	}
+	if !existed && s == SIface {
+		st.ifaceClosure("((o Int))", "("+sanitize(name)+"@0 o)")
 	}
 	return f
 }
@@ -232,6 +266,9 @@ func (st *State) elemFam(s Sort) *Family {
 	if !existed && s == SSlice {
 		sym := sanitize(name) + "@0"
 		st.sc.emit("(assert (forall ((a Int) (o Int) (i Int)) (! (< (s-arr (%[1]s a o i)) %[2]s) :pattern ((%[1]s a o i)))))", sym, st.alloc0.S)
+	}
+	if !existed && s == SIface {
+		st.ifaceClosure("((a Int) (o Int) (i Int))", "("+sanitize(name)+"@0 a o i)")
 	}
 	return f
 }
@@ -250,6 +287,8 @@ func (st *State) mapFamsT(mt *types.Map) (dom, val, ln *Family) {
 		switch mt.Elem().Underlying().(type) {
 		case *types.Pointer, *types.Map, *types.Signature:
 			st.sc.emit("(assert (forall ((m Int) (k %[3]s)) (! (< (%[1]s m k) %[2]s) :pattern ((%[1]s m k)))))", sym, st.alloc0.S, k)
+		case *types.Interface:
+			st.ifaceClosure(fmt.Sprintf("((m Int) (k %s))", k), "("+sym+" m k)")
 		}
 	}
 	return
@@ -538,4 +577,13 @@ func (st *State) mapRead(snap map[string]string, mt *types.Map, m, k Term) Term 
 		st.sc.emit("(assert (forall ((m Int) (k %[1]s)) (! (= (%[2]s m k) (ite (%[3]s m k) (%[4]s m k) %[5]s)) :pattern ((%[2]s m k)))))", d.Args[1], name, ds, vs, st.u().zero(v.Res).S)
 	}
 	return app(v.Res, name, m, k)
+}
+
+// runeString: string(rune) as an uninterpreted function with its length facts
+func (st *State) runeString(x Term) Term {
+	if !st.sc.declared["fun:gstr.ofrune"] {
+		st.sc.declFun("gstr.ofrune", []Sort{SInt}, SStr)
+		st.sc.emit("(assert (forall ((x Int)) (! (and (<= 1 (gstr.len (gstr.ofrune x))) (<= (gstr.len (gstr.ofrune x)) 4) (=> (and (<= 0 x) (< x 128)) (and (= (gstr.len (gstr.ofrune x)) 1) (= (gstr.at (gstr.ofrune x) 0) x))) (=> (or (< x 0) (>= x 128)) (>= (gstr.len (gstr.ofrune x)) 2))) :pattern ((gstr.ofrune x)))))")
+	}
+	return app(SStr, "gstr.ofrune", x)
 }
